@@ -86,7 +86,9 @@ TESTED_NOT_PROVED = ["WLCanonicalizer: its canonical graph (a relabelling by dig
                      "VF2 enumerates exactly the self-isomorphisms (premise of C18_vf2_count, compared per case)",
                      "graph()/orbits()/has_nontrivial_automorphism()/canonical()/iter()/detect_automorphisms()/wl_canonical() agree with summary() "
                      "(oracle; with max_depth / max_count also in the correspondence)",
-                     "second halves of clauses 2-4 for non-default attribute selections (oracle: brute-force self-maps on the selected attributes)"]
+                     "second halves of clauses 2-4 for attribute selections OUTSIDE the domain of the round-6 theorems: 'label' selected, neither kind "
+                     "nor bipartite selected, or a view with self-loops such as a species view with catalysts (oracle: brute-force self-maps on the "
+                     "selected attributes)"]
 
 KIND = {"reaction": 0, "species": 1}
 ROLE = {None: -1, "product": 0, "reactant": 1}
@@ -1862,7 +1864,7 @@ def gen_cases(tier, rng):
     return cases
 
 
-LEVEL_TEXT = ("Machine-checked proof (Coq, 53 theorems, closed under the global context) over an executable model of CRNCanonicalizer / "
+LEVEL_TEXT = ("Machine-checked proof (Coq, 60 theorems, closed under the global context) over an executable model of CRNCanonicalizer / "
               "CRNAutomorphism / WLCanonicalizer, the two network views and the analyzers' cached-view state, for ALL views: the canonical graph is the view relabelled by a bijection onto "
               "k+1..k+n (clause 1); a view renamed by a map injective on its nodes and presented in any other node/arc order gets the same "
               "minimal label and the identical canonical graph (clause 2: signature/label/initial partition equivariant, generic IR leaf "
@@ -1876,7 +1878,10 @@ LEVEL_TEXT = ("Machine-checked proof (Coq, 53 theorems, closed under the global 
               "explicit, monitored premise). Also proved: the WL colour cells never split an orbit (any selection, any option) and the WL estimate "
               "never under-estimates the number of self-maps; integer_ids gives the identical canonical graph and makes clause 2 hold for EVERY "
               "species renaming (no view-id collision); for every attribute selection: clause 1, invariance of the minimal label / leaves / count "
-              "under renaming and count >= number of selected-attribute self-maps (partial clauses 2 and 4); max_depth: early_stop=False certifies the exact answer and a bound >= |V| never stops early; a kept "
+              "under renaming and count >= number of selected-attribute self-maps (partial clauses 2 and 4); round 6: the selection's label is read back "
+              "(C18_labelA_read), so for bipartite selections without 'label' that contain kind or bipartite, on loop-free views (every bipartite "
+              "view without a view-id collision), clauses 2 and 4 hold IN FULL on the selected attributes (C18_attr_count_exact, "
+              "C18_attr_orbits_exact, C18_attr_invariant_full, C18_net_attr_count_exact; species view: C18_spattr_count_exact on loop-free views); max_depth: early_stop=False certifies the exact answer and a bound >= |V| never stops early; a kept "
               "analyzer serves the current network after any sequence of mutating method calls (version cache of _CRNGraphBackend as a state "
               "machine = dirty flags, for every script; refuted for edits behind the hypergraph's back). The model is tied to the Python code on every run by comparing the view graph, every _refine "
               "argument/result, the canonical permutation and label string, all minimal leaves, orbits, canonical graph, the VF2 "
